@@ -78,6 +78,11 @@ harnesses! {
         let pw = any_bytes::<3>();
         pwd_key_case(&pw);
     }
+    /// S6: a password longer than the hash output and than a hash block (17 bytes): no truncation at either size
+    fn s6_pwd_key_len17 [unwind = 36] {
+        let pw = any_bytes::<17>();
+        pwd_key_case(&pw);
+    }
     /// S6: empty password
     fn s6_pwd_key_len0 [unwind = 36] {
         pwd_key_case(&[]);
